@@ -203,7 +203,25 @@ def r7_dict(chk: Check):
     chk.require(bool(srt), chk.fkey(f, "dict order"), "dict items must be hashed in sorted key order (the sorted sequence must be the iterated one)", loc)
 
 
+def init_tasks_attached_first(chk: Check):
+    """The init tasks are part of the full identifier: submit() must attach them before anything that may ask for the identifier
+    (sealing runs the path generators, which ask the job for its directory; the scheduler asks for it at registration)"""
+    tree = chk.tree
+    f = tree.func("core.objects", "ConfigInformation.submit")
+    g = CFG(f.node)
+    stores = [n for n in g.live if n.kind == "stmt" and isinstance(n.ast, (ast.Assign, ast.AnnAssign)) and any(src(t) == "self.init_tasks" for t in (n.ast.targets if isinstance(n.ast, ast.Assign) else [n.ast.target]))]
+    chk.min_instances(len(stores), 1, "store of self.init_tasks in ConfigInformation.submit")
+    from ..astq import tail
+
+    askers = [(n, c) for n, c in g.call_nodes(lambda c: tail(c) in ("seal", "validate_and_seal", "identifiers") or src(c).startswith("experiment.CURRENT.submit(") or src(c).startswith("experiment.CURRENT.prepare("))]
+    chk.min_instances(len(askers), 2, "identifier-requesting calls in ConfigInformation.submit")
+    for n, c in askers:
+        chk.require(any(g.dominates(s, n) for s in stores), chk.fkey(f, f"init tasks attached before {tail(c)}"),
+                    f"`{src(c)[:60]}` can ask for the identifier before `self.init_tasks` is set: the identifier (and every generated path) computed there lacks the init tasks", chk.loc(f.module, c))
+
+
 def r8_full(chk: Check):
+    init_tasks_attached_first(chk)
     m, br, f, loc = _model(chk)
     fi = chk.tree.func("core.objects", "ConfigInformation.identifiers")
     loc = chk.loc(fi.module, fi.node)
@@ -346,6 +364,14 @@ def r14_pretasks_cross_tasks(chk: Check):
     chk.require(bool(walker), chk.fkey(f, "recurse_task"), "the pre-task collection must follow task links (recurse_task=True)", chk.loc(f.module, f.node))
 
 
+def r15_values_written_through_guard(chk: Check):
+    """A parameter value written behind the seal guard (aliasing the values dict, direct stores) changes what is executed while the cached
+    identifier stays: two different parameterisations then share one identifier"""
+    from .c14 import r1_mutator_guards
+
+    r1_mutator_guards(chk)
+
+
 RULES = [
     ("R1", "tags are pairwise distinct single bytes below 0x20; each value kind starts with its own tag; NAME is not a value tag", r1_tags),
     ("R2", "scalar payloads are lossless (int: 64-bit integer pack, float: double, str: utf-8 of the whole text)", r2_scalars),
@@ -360,5 +386,6 @@ RULES = [
     ("R12", "configuration equality (used by the skip-if-default rule) is exact-class and compares every argument", r12_default_equality),
     ("R13", "declared defaults are cloned into instances: a default shared with its Argument makes `value == default` true for ever, and the parameter drops out of the signature (= C01.R6)", r13_defaults_cloned),
     ("R14", "the pre-tasks entering the full identifier are collected through task links as well (a pre-task of an upstream task is part of what is executed)", r14_pretasks_cross_tasks),
+    ("R15", "parameter values are written only through the seal-guarded mutators: no write can change a value after its identifier was cached (= C14.R1)", r15_values_written_through_guard),
     ("R9", "no framing conflict (FIRST/FOLLOW of variable-length constructs) outside the two domain exclusions of the property", r9_framing),
 ]
